@@ -1,8 +1,9 @@
 /-
   NB.Model.Asm — mini x86-64 interpreter for the instruction subset of the two inline-asm
   loops (import-free, executable).  This is *my* formalisation of that ISA subset and is in the
-  trusted base: adc/sbb add/subtract with CF and set CF/ZF; inc/dec leave CF unchanged and set
-  ZF; jnz jumps when ZF = 0; setc writes CF; clc clears CF.
+  trusted base: adc/sbb (register or memory source) add/subtract with CF and set CF/ZF; inc/dec
+  leave CF unchanged and set ZF; lea and mov touch no flag; add/sub with an immediate set CF/ZF;
+  jnz jumps when ZF = 0; setc writes CF; clc clears CF.
 
   Two memories: the buffer behind pointer register `aReg` (read/write, `la` digits) and the
   buffer behind `bReg` (read-only, `lb` digits).  Any access at an index ≥ the buffer length,
@@ -31,30 +32,64 @@ structure Cfg where
 
 def b2n (c : Bool) : Nat := if c then 1 else 0
 
+/-- read digit `j` behind pointer register `base`; `none` = fault (out of bounds or not a pointer) -/
+def rd (k : Cfg) (s : St) (base j : Nat) : Option Nat :=
+  if base = k.aReg then (if j < k.la then some (s.a j) else none)
+  else if base = k.bReg then (if j < k.lb then some (s.b j) else none)
+  else none
+
+/-- `mov {dst}, [digit j behind base]` -/
+def doLoad (k : Cfg) (s : St) (dst base j : Nat) : Option St :=
+  if dst = k.aReg ∨ dst = k.bReg then none else
+  match rd k s base j with
+  | none => none
+  | some v => some { s with regs := upd s.regs dst v }
+
+/-- `mov [digit j behind base], {src}`: only through the `a` pointer -/
+def doStore (k : Cfg) (s : St) (base j src : Nat) : Option St :=
+  if base = k.aReg then
+    if j < k.la then some { s with a := upd s.a j (s.regs src) } else none
+  else none
+
+/-- `adc {dst}, y` -/
+def doAdc (k : Cfg) (s : St) (dst y : Nat) : Option St :=
+  if dst = k.aReg ∨ dst = k.bReg then none else
+  let t := s.regs dst + y + b2n s.cf
+  some { s with regs := upd s.regs dst (t % B), cf := decide (B ≤ t), zf := decide (t % B = 0) }
+
+/-- `sbb {dst}, y` -/
+def doSbb (k : Cfg) (s : St) (dst y : Nat) : Option St :=
+  if dst = k.aReg ∨ dst = k.bReg then none else
+  let sub := y + b2n s.cf
+  let r := if sub ≤ s.regs dst then s.regs dst - sub else s.regs dst + B - sub
+  some { s with regs := upd s.regs dst r, cf := decide (s.regs dst < sub), zf := decide (r = 0) }
+
 /-- one non-control instruction; `none` = fault -/
 def step (k : Cfg) (i : Instr) (s : St) : Option St :=
   match i with
   | .clc => some { s with cf := false }
-  | .load dst base idx off =>
-    if dst = k.aReg ∨ dst = k.bReg then none
-    else if base = k.aReg then
-      if s.regs idx + off < k.la then some { s with regs := upd s.regs dst (s.a (s.regs idx + off)) } else none
-    else if base = k.bReg then
-      if s.regs idx + off < k.lb then some { s with regs := upd s.regs dst (s.b (s.regs idx + off)) } else none
-    else none
-  | .store base idx off src =>
-    if base = k.aReg then
-      if s.regs idx + off < k.la then some { s with a := upd s.a (s.regs idx + off) (s.regs src) } else none
-    else none
-  | .adc dst src =>
-    if dst = k.aReg ∨ dst = k.bReg then none else
-    let t := s.regs dst + s.regs src + b2n s.cf
-    some { s with regs := upd s.regs dst (t % B), cf := decide (B ≤ t), zf := decide (t % B = 0) }
-  | .sbb dst src =>
-    if dst = k.aReg ∨ dst = k.bReg then none else
-    let sub := s.regs src + b2n s.cf
-    let r := if sub ≤ s.regs dst then s.regs dst - sub else s.regs dst + B - sub
-    some { s with regs := upd s.regs dst r, cf := decide (s.regs dst < sub), zf := decide (r = 0) }
+  | .load dst base idx off => doLoad k s dst base (s.regs idx + off)
+  | .loadn dst base off => doLoad k s dst base off
+  | .store base idx off src => doStore k s base (s.regs idx + off) src
+  | .storen base off src => doStore k s base off src
+  | .adc dst src => doAdc k s dst (s.regs src)
+  | .sbb dst src => doSbb k s dst (s.regs src)
+  | .adcm dst base idx off =>
+    match rd k s base (s.regs idx + off) with
+    | none => none
+    | some y => doAdc k s dst y
+  | .sbbm dst base idx off =>
+    match rd k s base (s.regs idx + off) with
+    | none => none
+    | some y => doSbb k s dst y
+  | .adcmn dst base off =>
+    match rd k s base off with
+    | none => none
+    | some y => doAdc k s dst y
+  | .sbbmn dst base off =>
+    match rd k s base off with
+    | none => none
+    | some y => doSbb k s dst y
   | .inc r =>
     if r = k.aReg ∨ r = k.bReg then none else
     let v := (s.regs r + 1) % B
@@ -63,6 +98,18 @@ def step (k : Cfg) (i : Instr) (s : St) : Option St :=
     if r = k.aReg ∨ r = k.bReg then none else
     let v := (s.regs r + B - 1) % B
     some { s with regs := upd s.regs r v, zf := decide (v = 0) }
+  | .lea dst src imm =>
+    if dst = k.aReg ∨ dst = k.bReg then none else
+    some { s with regs := upd s.regs dst ((s.regs src + imm) % B) }
+  | .addi r imm =>
+    if r = k.aReg ∨ r = k.bReg then none else
+    let t := s.regs r + imm % B
+    some { s with regs := upd s.regs r (t % B), cf := decide (B ≤ t), zf := decide (t % B = 0) }
+  | .subi r imm =>
+    if r = k.aReg ∨ r = k.bReg then none else
+    let sub := imm % B
+    let v := if sub ≤ s.regs r then s.regs r - sub else s.regs r + B - sub
+    some { s with regs := upd s.regs r v, cf := decide (s.regs r < sub), zf := decide (v = 0) }
   | .setc r =>
     if r = k.aReg ∨ r = k.bReg then none else
     some { s with regs := upd s.regs r (b2n s.cf) }
